@@ -94,25 +94,49 @@ def run(rep, tier, seed, budget):
             _judge(ctx, eng, col, r, snap, mk, (comp, attr))
         return path
 
-    plan = []
+    A_TAB = dech.A_CORE + ["[NH1]", "[CH4]", "[nop]", "."]
+
+    def tab_level(N):
+        def path(eng, col):
+            table = ctx.sym_table(["C", "N", "?"])
+            ctx.reset(table)
+            comp = fresh_bool("compatible")
+            attr = fresh_bool("attribute")
+            toks = make_tokens("t", N, A_TAB)
+            c, a = bool(comp), bool(attr)
+            r = dech.run_decoder(ctx, TokStr(toks), compatible=c, attribute=a)
+            col.count(r[0])
+            col.nontrivial((r[0], str(r[1])[:60]))
+            col.sample({"flags": [c, a], "outcome": r[0]})
+            if r[0] == "exc":
+                from ..ctx import table_model
+                m = eng.current_model()
+                col.candidate({"prop": "C08", "kind": "decoder_total", "selfies": dech.concrete_selfies(m, toks),
+                               "compatible": c, "attribute": a, "table": table_model(m, table)})
+        return path
+
+    plan = [("tab", n) for n in ((1, 2, 3, 4) if quick else (1, 2, 3, 4, 5))]
     if quick:
         plan += [("tok", n) for n in (1, 2, 3)]
         plan += [("chr", n) for n in (1, 2, 3, 4)]
         plan += [("cell", n) for n in (1, 2, 3)]
     else:
-        plan += [("tok", n) for n in (1, 2, 3, 4, 5)]
+        plan += [("tok", n) for n in (1, 2, 3, 4)]
         plan += [("chr", n) for n in (1, 2, 3, 4, 5, 6)]
         plan += [("cell", n) for n in (1, 2, 3, 4, 5)]
     for kind, n in plan:
         left = t_end - time.time()
         name = {"tok": "M-TOK N=%d: grammar + legacy + malformed symbols, both flags free",
                 "chr": "M-CHR N=%d: decoder(str) incl. split_selfies, 16-character alphabet, both flags free",
-                "cell": "M-CHR cells N=%d: whole symbols mixed with stray brackets/dots/characters"}[kind] % n
+                "cell": "M-CHR cells N=%d: whole symbols mixed with stray brackets/dots/characters",
+                "tab": "M-TOK x M-TAB N=%d: grammar symbols incl. capacity-0 atoms, capacities of C, N, ? free in 0..9, both flags free"}[kind] % n
         if left < 5:
             rep.parts.append({"name": name, "complete": False, "paths": 0, "bounds": {"N": n},
                               "claim": "not started (time budget)"})
             continue
-        if kind == "tok":
+        if kind == "tab":
+            fn, bounds = tab_level(n), {"alphabet": A_TAB, "N_symbols": n, "table": "C, N, ? free in 0..9"}
+        elif kind == "tok":
             fn, bounds = tok_level(n), {"alphabet": A_TOK, "N_symbols": n}
         elif kind == "chr":
             fn, bounds = chr_level(n, SIGMA, "chr"), {"characters": SIGMA, "N_chars": n}
